@@ -18,6 +18,7 @@ const modPath = "github.com/pion/transport/v3"
 var verifRoot = "/verif"
 
 type Engine struct {
+	dropOptional map[string]bool // functions verified without their `invariant?` clauses (they turned out not to hold for this loop shape)
 	renameTry map[string]map[string]string // function -> recovered renames of locals named by its contract
 	repo      string
 	prog      *ssa.Program
